@@ -285,7 +285,7 @@ PROPS['C06'] = dict(
          'fresh slots. non-trivial = some class holds an e-node with a redundant slot, or a non-trivial group; distinct = by hash of the case line',
     trusted_base=EG_TRUST + ['Extractor::new (priority-queue loop) is not modelled: its table is compared with the checked Lean table per run'],
     assumptions=COMMON_ASSUME,
-    pending_theorems=['table_attained (every entry is the cost of an extraction tree) — attainment is shown per run by the implementation\'s own extracted term'],
+    pending_theorems=[],
 )
 
 PROPS['C14'] = dict(
